@@ -76,7 +76,46 @@ type listener struct {
 	tpt *pconn.Transport
 }
 
-func parseAddr(a string) (net.Addr, error) { return qmem.Addr(a), nil }
+// parseAddr resolves a dial string: "alias-N:A" forms (like a host name) resolve
+// to the canonical address "A", so that the dial string differs from
+// sess.RemoteAddr().String().
+func parseAddr(a string) (net.Addr, error) {
+	if i := strings.Index(a, ":"); i >= 0 && strings.HasPrefix(a, "alias-") {
+		return qmem.Addr(a[i+1:]), nil
+	}
+	return qmem.Addr(a), nil
+}
+
+// modelAddr: canonical "A" is 1, any alias string is 9 (resolved form is 1).
+func modelAddr(dialStr string) string {
+	if dialStr == addrA {
+		return "1"
+	}
+	return "9"
+}
+
+func pickDialStr(c *hx.Ctx) string {
+	switch c.Rng.Intn(5) {
+	case 0:
+		return "alias-1:A"
+	case 1:
+		return "alias-2:A"
+	}
+	return addrA
+}
+
+// noDialerLeft: after a dial finished the transport must hold no dialer entry.
+func noDialerLeft(c *hx.Ctx, q *transport_quic.Transport, desc any, when string) {
+	var keys []string
+	for i := 0; i < 400; i++ {
+		keys = q.VerifDialerKeys()
+		if len(keys) == 0 {
+			return
+		}
+		time.Sleep(500 * time.Microsecond)
+	}
+	c.Failf("stale-dialer-entry", desc, "%s: the dial finished but the dialers table still holds %v", when, keys)
+}
 
 // gate holds a dial in flight: the dialer's address parser (called by the dial
 // function once per dial) blocks until the script releases it.
@@ -88,7 +127,7 @@ type gate struct {
 func (g *gate) parse(a string) (net.Addr, error) {
 	g.entered <- struct{}{}
 	<-g.release
-	return qmem.Addr(a), nil
+	return parseAddr(a)
 }
 
 // waitBlockedDialPeer waits until n goroutines are parked inside
@@ -249,6 +288,14 @@ func run(c *hx.Ctx) {
 		{{who: 1}, {who: 2}, {drop: true}, {who: 2}},
 		{{who: 0}, {who: 1}},
 	}
+	// repeated dials of one non-canonical dial string across answerer changes
+	aliasFixed := [][]ev{
+		{{who: 2}, {who: 1}},
+		{{who: 2}, {drop: true}, {who: 1}, {who: 1}},
+		{{who: 1}, {drop: true}, {who: 1}},
+		{{who: 1}, {who: 1}, {who: 2}, {who: 1}},
+		{{who: 0}, {who: 2}, {who: 1}},
+	}
 	for i := 0; i < nCalls; i++ {
 		var es []ev
 		if i < len(fixed) {
@@ -256,7 +303,13 @@ func run(c *hx.Ctx) {
 		} else {
 			es = genScript(c, 2+c.Rng.Intn(6), c.Rng.Intn(6) == 0)
 		}
-		callsCase(c, es)
+		ds := pickDialStr(c)
+		if i < len(fixed) {
+			ds = addrA
+		} else if i < len(fixed)+len(aliasFixed) {
+			es, ds = aliasFixed[i-len(fixed)], "alias-1:A"
+		}
+		callsCase(c, es, ds)
 	}
 	loopFixed := [][]ev{
 		{{who: 1}},
@@ -288,12 +341,19 @@ func run(c *hx.Ctx) {
 				es = append(es, ev{who: 1})
 			}
 		}
-		loopCase(c, es)
+		ds := pickDialStr(c)
+		if i < len(loopFixed) {
+			ds = addrA
+		} else if i < len(loopFixed)+2 {
+			ds = "alias-1:A"
+			es = [][]ev{{{who: 2}, {drop: true}, {who: 1}}, {{who: 2}, {who: 1}}}[i-len(loopFixed)]
+		}
+		loopCase(c, es, ds)
 	}
 }
 
 // callsCase: one DialPeer call per attempt.
-func callsCase(c *hx.Ctx, es []ev) {
+func callsCase(c *hx.Ctx, es []ev, dialStr string) {
 	ctx, cancel := context.WithCancel(context.Background())
 	defer cancel()
 	nw := qmem.NewNet()
@@ -314,7 +374,8 @@ func callsCase(c *hx.Ctx, es []ev) {
 	var obs []string
 	var obsI []int64
 	terms, strs := evTerms(es)
-	desc := map[string]any{"kind": "calls", "dial": "DialPeer(X, A)", "script": strs}
+	alias := dialStr != addrA
+	desc := map[string]any{"kind": "calls", "dial": "DialPeer(X, " + dialStr + ")", "resolved_address": addrA, "script": strs}
 	impostorFirst := false
 	seenX := false
 	for i, e := range es {
@@ -337,11 +398,20 @@ func callsCase(c *hx.Ctx, es []ev) {
 		if e.who == 0 {
 			to = 150 * time.Millisecond
 		}
+		var before peer.ID
+		if cur, ok := d.LookupLinkWithAddr(addrA); ok {
+			before = cur.GetRemotePeer()
+		}
 		dctx, dcancel := context.WithTimeout(ctx, to)
-		lnk, _, derr := d.DialPeer(dctx, x, addrA)
+		lnk, _, derr := d.DialPeer(dctx, x, dialStr)
 		dcancel()
 		if e.who == 0 {
-			d.CancelDialer(addrA) // the dial function gives up (as after a refused connection)
+			d.CancelDialer(dialStr) // the dial function gives up (as after a refused connection)
+		}
+		noDialerLeft(c, d.Transport, desc, fmt.Sprintf("attempt %d (%s)", i, e))
+		// from the property text: X listens there and nothing else holds the address
+		if e.who == 1 && derr != nil && (alias || before == "" || before == x) {
+			c.Failf("x-listening-but-dial-failed", desc, "attempt %d: X answers at the address (no link to another peer registered there) but DialPeer(X) failed: %v", i, derr)
 		}
 		var o int64
 		switch {
@@ -370,8 +440,11 @@ func callsCase(c *hx.Ctx, es []ev) {
 	}
 	desc["results"] = obsI
 	desc["final_peer_at_A"] = final
-	c.Case(hx.App("Calls", "2", "1", terms, hx.List(obs), hx.Z(final)), desc)
+	c.Case(hx.App("Calls", "2", modelAddr(dialStr), "1", terms, hx.List(obs), hx.Z(final)), desc)
 	c.Class("calls")
+	if alias {
+		c.Class("calls-alias-dial-string")
+	}
 	if impostorFirst {
 		c.Class("calls-impostor-before-x")
 		c.Nontrivial(fmt.Sprint("c", strs))
@@ -386,7 +459,7 @@ var _ dialer.TransportDialer = dtpt{}
 
 // loopCase: Controller.DialPeerAddr with the real retry loop; the script is a
 // list of phases (who answers), a Drop closes the link currently at A.
-func loopCase(c *hx.Ctx, es []ev) {
+func loopCase(c *hx.Ctx, es []ev, dialStr string) {
 	ctx, cancel := context.WithCancel(context.Background())
 	defer cancel()
 	le := quietLogger()
@@ -424,9 +497,10 @@ func loopCase(c *hx.Ctx, es []ev) {
 	}
 	x := pids[1]
 	terms, strs := evTerms(es)
-	desc := map[string]any{"kind": "loop", "dial": "Controller.DialPeerAddr(X, A)", "script": strs}
+	alias := dialStr != addrA
+	desc := map[string]any{"kind": "loop", "dial": "Controller.DialPeerAddr(X, " + dialStr + ")", "resolved_address": addrA, "script": strs}
 	const backoffMs = 20
-	opts := &dialer.DialerOpts{Address: addrA, Backoff: &backoff.Backoff{
+	opts := &dialer.DialerOpts{Address: dialStr, Backoff: &backoff.Backoff{
 		BackoffKind: backoff.BackoffKind_BackoffKind_CONSTANT, Constant: &backoff.Constant{Interval: backoffMs}}}
 	type res struct {
 		l   link.Link
@@ -496,7 +570,7 @@ func loopCase(c *hx.Ctx, es []ev) {
 	}
 	// liveness clause: X answered last with the address free => satisfied
 	last := es[len(es)-1]
-	free := len(es) == 1 || es[len(es)-2].drop
+	free := len(es) == 1 || es[len(es)-2].drop || alias
 	if !last.drop && last.who == 1 && free && o != 2 {
 		c.Failf("x-reachable-but-no-link", desc, "X answered at a free address but DialPeerAddr did not return a link to X (got %d)", o)
 	}
@@ -518,8 +592,14 @@ func loopCase(c *hx.Ctx, es []ev) {
 		}
 	}
 	desc["result_peer"] = o
-	c.Case(hx.App("Loop", "2", "1", terms, hx.Z(o)), desc)
+	if got != nil {
+		noDialerLeft(c, d.Transport, desc, "after DialPeerAddr returned")
+	}
+	c.Case(hx.App("Loop", "2", modelAddr(dialStr), "1", terms, hx.Z(o)), desc)
 	c.Class("loop")
+	if alias {
+		c.Class("loop-alias-dial-string")
+	}
 	if impostor {
 		c.Class("loop-impostor")
 		c.Nontrivial(fmt.Sprint("l", strs))
